@@ -206,6 +206,44 @@ def main(tier, seed, replay=None):
         c["ops"] = list(states.OBS)
         ecases.append(c)
     _, neps, nskip_eps, ehist = states.run_states(run, "C18", binp, ecases, 3, lambda code: code in (2, 3, 4, 5), "state right after build()")
+    # weights that make W Phi overflow / non-finite although the model itself evaluates to finite values: build() still returns
+    # (no panic, no hang), and exposes no residuals / coefficients for a matrix it cannot decompose
+    ocases = []
+    for i in range(12 if tier == "quick" else 120):
+        sc = "f32" if i % 3 == 2 else "f64"
+        c = gen_problem(rng, quant=8, scalar=sc, family="exp1l", N=8, weights="none", ctor=CTORS[i % 4])
+        big = 3.4028234663852886e38 if sc == "f32" else 1.7976931348623157e308
+        bad = [big, float("inf"), -big, float("nan"), float("-inf")][i % 5]
+        w = [1.0] * 8
+        if i % 2:
+            w = [bad] * 8
+        else:
+            w[rng.randrange(5, 8)] = bad       # the linear basis function exceeds 1 there: max-float * phi overflows
+        c["build"].append(["weights", [hx(v, sc) for v in w]])
+        rng.shuffle(c["build"])
+        c["ops"] = [["observe"], ["tables"]]
+        c["id"] = 50000 + i
+        ocases.append(c)
+    ores = run_harness(binp, "scenario", ocases, workdir, timeout_ms=10000, tag="ovf")
+    novf = 0
+    for c, r in zip(ocases, ores):
+        if r.get("panic") is not None or r.get("timeout") or (r.get("head") or {}).get("build") != "ok":
+            run.violation("builder panicked / hung / failed on weights that make the weighted basis matrix non-finite: %s"
+                          % (r.get("panic") or ("timeout" if r.get("timeout") else "build failed")), {"case": c, "result": r})
+            continue
+        st = dict(steps_by_op(r))
+        ob, tb = st["observe"]["v"], st["tables"]["v"]
+        if tb["phi"] is None:
+            continue
+        wv = [unhx(h) for h in [o for o in c["build"] if o[0] == "weights"][-1][1]]
+        nonfinite = any(not is_finite_hex(hx(round_to(wv[i] * unhx(h), c["scalar"]), c["scalar"]))
+                        for col in tb["phi"]["cols"] for i, h in enumerate(col))
+        if nonfinite:
+            novf += 1
+            if ob["resid"] is not None or ob["coef"] is not None:
+                run.violation("a problem whose weighted basis matrix is not finite exposes residuals / coefficients right after build()",
+                              {"case": c, "observe": ob})
+    run.coverage["overflowing_weight_cases"] = novf
     run.coverage.update({
         "states_after_build_with_large_thresholds": neps, "of_which_skipped_ill_conditioned": nskip_eps,
         "evaluations": len(cases), "distinct_nontrivial": len(distinct),
